@@ -51,6 +51,9 @@ def check(ctx, adt=T.ANIM_ADT, F=None, only_r1=False):
     from rules import c01, c10
     c01.rule_split(ctx, F, "R3")
     c10.rules_override_scope(ctx, prefix="R3")
+    # after the end the frame is still found by the search for the terminal position (0% for reversing timelines), not
+    # assumed to be the last one
+    c01.rule_search(ctx, F, "R3")
     ctx.notes.append("R3 (once ended, values rest) follows from C06/R1 (the accumulator only grows), C02/R3 (Ended "
                      "maps to a constant position) and C09 (update is a function of time)")
     ctx.notes.append("not decided: float behaviour exactly at the end instant of multi-cycle timelines")
